@@ -1,6 +1,7 @@
 package main
 
 import (
+	"os"
 	"fmt"
 	"go/token"
 	"go/types"
@@ -464,6 +465,9 @@ func (x *Exec) applyContract(fr *Frame, st *State, c *Contract, fn *ssa.Function
 	if c.AssignsAll || (!c.HasAssigns && !c.Pure) {
 		// no frame clause: the callee may write anything
 		x.havocAll(st)
+		if os.Getenv("GVC_DEBUG") != "" {
+			x.note("no frame clause: " + name)
+		}
 	} else {
 		for _, a := range c.Assigns {
 			x.havocLvalue(env, st, a)
@@ -885,6 +889,7 @@ func (x *Exec) checkFrame(fr *Frame, st *State, pos token.Pos) {
 	for i, p := range fr.fn.Params {
 		vars[p.Name()] = fr.params[i]
 	}
+	x.bindFreeVars(fr, fr.entry, vars) // a closure's frame clause may name what it captures
 	env := &SpecEnv{x: x, vars: vars, cur: fr.entry, old: fr.entry, pkg: x.pkgOfFn(fr.fn), fr: fr}
 	allowed := map[string][]*Term{}
 	for _, a := range c.Assigns {
